@@ -69,6 +69,7 @@ const (
 	opFunc   // func Name(Params) { Body }
 	opCall   // Name(Args)
 	opAnonCall
+	opUnpack // a, b = [N, N + 1]   (several targets, ONE list on the right)
 )
 
 type stmt struct {
@@ -241,6 +242,8 @@ func render(b []*stmt, ind string) string {
 			sb.WriteString(s.Name + "(" + strings.Join(as, ", ") + ")")
 		case opAnonCall:
 			sb.WriteString(renderExpr(s.E, ind) + "()")
+		case opUnpack:
+			fmt.Fprintf(&sb, "a, b = [%d, %d]", s.N, s.N+1)
 		default:
 			panic("bad stmt")
 		}
@@ -707,6 +710,10 @@ func (m *machine) exec(st *stmt, s *mscope) sig {
 	case opAnonCall:
 		f, _ := m.eval(st.E, s)
 		return m.call(f, nil)
+	case opUnpack:
+		// every target follows the plain-assignment rule on its own
+		s.assign("a", mval{k: 'i', n: st.N})
+		s.assign("b", mval{k: 'i', n: st.N + 1})
 	default:
 		panic("bad stmt")
 	}
